@@ -622,4 +622,10 @@ def tracePathOK (t : Tree) (X : Rows) (recs : List GenRec) : Bool :=
   (List.range (nObjects X)).all fun g =>
     decide (((recs.filter fun r => r.ext.contains g).map (·.concept)).Perm (pathFrom t (X.getD g []) t.n 0))
 
+/-- every node is reached by at least one row of the context (true of any tree fitted on rows of the
+    context, bootstrapped or not: each node holds at least one training sample) -/
+def fitted (t : Tree) (X : Rows) : Bool :=
+  (List.range t.n).all fun k =>
+    (List.range (nObjects X)).any fun g => (pathFrom t (X.getD g []) t.n 0).contains k
+
 end Fca.DL
